@@ -35,6 +35,7 @@ def directed_edges(A: Arr2) -> ListOf(Tup(Int, Int)):
     requires(square(A))
     ensures(set(result) == {(i, j) for i in range(len(A)) for j in range(len(A)) if dedge(A, i, j)})
     ensures(distinct(result))
+    ensures(len(result) == count(len(A), len(A), lambda i, j: dedge(A, i, j)))
     fresh(result)
 
 
@@ -111,3 +112,8 @@ def is_clique(S: SetOf(Int), A: Arr2) -> Bool:
 def is_complete(P: Arr2) -> Bool:
     requires(graph(P))
     ensures(result == all(adjacent(P, a, b) for a in range(len(P)) for b in range(len(P)) if a != b))
+
+
+@spec
+def n_edges(A):
+    return count(len(A), len(A), lambda i, j: A[i, j] != 0)
